@@ -144,6 +144,44 @@ def deriveRefills (est : Nat → Int) (incHits : Int) (cost : Int) :
         if incHits < h then ((extras :: acc).reverse, errs.reverse)
         else deriveRefills est incHits cost (l.remove vk).1 (swapRemove s i) more (extras :: acc) errs
 
+/-- The tie-break among equally unpopular candidates is an oracle input of the model (`tiePick`, read by
+`minEntry` at `est (2^64 + sampleCode sample)`): C07 is indifferent to it. It is read off the implementation's
+behaviour: the index taken at iteration `t` is the one whose `swap_remove` turns the observed sample of
+iteration `t` into the carried-over prefix of the sample observed at iteration `t + 1`; at the last iteration
+it is the entry whose key was released by this call and not taken at an earlier iteration (if several: the one
+handed to `on_evict` first). No answer
+(the oracle's default 0 = first minimum) when that cannot be told. A proposed entry that is not a minimum is
+ignored by the model, so a wrong victim still diverges. -/
+def tieOracle (obs : List (List (Nat × Int))) (released : List Nat) (order : List Nat := []) : List (Nat × Int) :=
+  let rec go (obs : List (List (Nat × Int))) (taken : List Nat) (fuel : Nat) : List (Nat × Int) :=
+    match fuel, obs with
+    | 0, _ => []
+    | _, [] => []
+    | fuel + 1, o :: more =>
+      let idxs := List.range o.length
+      let pick : Option Nat := match more with
+        | nxt :: _ => idxs.find? fun j => let carried := swapRemove o j; nxt.take carried.length == carried
+        | [] =>
+          let cands := idxs.filter fun j => match o[j]? with
+            | some p => released.contains p.1 && !taken.contains p.1
+            | none => false
+          let keys := (cands.filterMap fun j => (o[j]?).map (·.1)).eraseDups
+          if keys.length == 1 then cands.head?
+          else
+            -- several released keys in the last sample (a composite step of the async traces applies several
+            -- items; the later items' victims are released too): this item's victim is called back first
+            match order.find? (fun k => keys.contains k) with
+            | some k => cands.find? fun j => (o[j]?).map (·.1) == some k
+            | none => none
+      match pick with
+      | some j => (2 ^ 64 + sampleCode o, (j : Int)) :: go more (match o[j]? with | some p => p.1 :: taken | none => taken) fuel
+      | none => go more taken fuel
+  go obs [] (obs.length + 1)
+
+/-- the popularity oracle handed to the model: estimates below 2^64, tie-break answers above -/
+def withTies (est : Nat → Int) (ties : List (Nat × Int)) : Nat → Int :=
+  fun x => if x ≥ 2 ^ 64 then ((ties.find? (·.1 == x)).map (·.2)).getD 0 else est x
+
 /-- C07 monitor evaluated on what the implementation did -/
 def monitorAdd (tl : Tally) (before : PolSnap) (key : Nat) (cost incHits : Int)
     (obs : List (List (Nat × Int × Int))) (added : Bool) (victims : Option (List (Nat × Int)))
@@ -221,8 +259,9 @@ def stepPolicy (st : PolSt) (tl : Tally) (act : String) (ans : String) (prev : O
       let added := addedN == 1
       let victims : Option (List (Nat × Int)) := if vstr == "none" then none else parsePairs vstr
       let estTab : List (Nat × Int) := (obs.flatten.map fun t => (t.1, t.2.2))
-      let est : Nat → Int := fun x => if x == key then inc else ((estTab.find? (·.1 == x)).map (·.2)).getD 0
+      let est0 : Nat → Int := fun x => if x == key then inc else ((estTab.find? (·.1 == x)).map (·.2)).getD 0
       let obsPairs := obs.map (·.map fun t => (t.1, t.2.1))
+      let est := withTies est0 (tieOracle obsPairs ((victims.getD []).map (·.1)))
       let (refills, errs) := deriveRefills est inc cost l [] obsPairs [] []
       let tl := errs.foldl (fun tl e => tl.guardAt s!"pol.add {key} {cost}: {e}") tl
       let R := policyAdd l est key cost refills
